@@ -328,7 +328,13 @@ def lex_inside_filter(l: Lexer) -> Optional[StateFn]:  # noqa: D103, PLR0915, PL
             l.emit(TokenType.COMMA)
             # If we have unbalanced parens, we are inside a function call and a
             # comma separates arguments. Otherwise a comma separates selectors.
-            if l.func_call_stack:
+            # A bracketed selection opened inside the function call, like the one
+            # in `count(@[?@.a, ?@.b])`, has selectors of its own.
+            if (
+                l.func_call_stack
+                and l.bracket_stack
+                and l.bracket_stack[-1][0] == "("
+            ):
                 continue
             l.filter_depth -= 1
             return lex_inside_bracketed_segment
